@@ -21,6 +21,7 @@ CONSTANTS
     Preds,        \* predicate names for pred nodes
     Presets,      \* dictionaries usable as pre-set / default options
     MapPaths,     \* paths a Map may iterate over
+    DispPaths,    \* paths a later set_dispatch may name
     Cbs,          \* dataset callbacks ("" = none)
     EffSets,      \* effect chains (sequences of effect ids) a dataset may have
     Caches,       \* cache kinds of datasets: "mem" (MemoryCache), "none" (NoCache)
@@ -198,6 +199,10 @@ MCNext ==
                 /\ (phase = "build" => ~taken)
                 /\ (phase = "calls" => Cardinality(lateRegs) < 2 /\ (taken => \A h \in lateRegs : hist[h].prev = 0))
              /\ Register(d, DispVals[i], impl)
+    \/ /\ LateRegister /\ Cardinality({h \in 1 .. Len(hist) : hist[h].a = "SetDispatch"}) < 1
+       \* (to keep the exhaustive runs small: only directly before the last call of a history)
+       /\ Cardinality({h \in 1 .. Len(hist) : hist[h].a = "Observe"}) = MaxHist - 1
+       /\ \E d \in E, p \in DispPaths : SetDispatch(d, p)
     \/ Len(nodes) >= MinNodes /\ KindOf(Root) \in RootKinds /\ (RequireComplete => Complete) /\ cur = NoDict /\ want = "none"
           /\ (NShards > 1 => GraphHash % NShards = Shard)
           /\ \E o \in Dicts : Pick(o)
@@ -370,13 +375,15 @@ FR_Leaves == <<[p |-> pA, vals |-> {I(0), I(1), I(2), I(3), Sv(<<Ref(pB)>>)}, ex
 FD_Kinds == {"opt", "val", "fnapp", "ds"}
 FD_KindsB == {"opt", "fnapp", "ds"}
 FD_CbsB == {"cb"}
-FD_LeavesB == <<[p |-> <<"K">>, vals |-> {I(1), I(2)}, extra |-> FALSE]>>
+FD_LeavesB == <<[p |-> <<"K">>, vals |-> {I(1), I(2)}, extra |-> FALSE], [p |-> <<"J">>, vals |-> {I(1)}, extra |-> FALSE]>>
 FD_Paths == {<<"K">>}
+FD_DispPaths == {<<"J">>}
 FD_Consts == {I(1), I(5)}
 FD_Bodies == {"f", "h"}
 FD_Disp == <<I(1), Str("x")>>
 FD_Cbs == {"", "cb"}
-FD_Leaves == <<[p |-> <<"K">>, vals |-> {I(1), Str("x"), I(2)}, extra |-> FALSE]>>
+FD_Leaves == <<[p |-> <<"K">>, vals |-> {I(1), Str("x"), I(2)}, extra |-> FALSE],
+               [p |-> <<"J">>, vals |-> {I(1), Str("x")}, extra |-> FALSE]>>
 
 \* family "classes" (C19): dataset classes = named members (a dict collection in the machine)
 FL_Kinds == {"val", "opt", "fnapp", "ds", "coll"}
